@@ -300,6 +300,16 @@ def run_case(case):
     if ub and FLAVOUR[0] == "san" and not case.get("force"):
         return {"tags": tags, "excluded": "ub:" + ub[0], "nontrivial": False}
 
+    if hard_unspec(model) or hard_unspec(model_c):
+        # the program does something the description gives no answer for, so the reference run does not tell whether the machine
+        # terminates: decide that with the machine's own step budget before anything is run to completion
+        vb = new_machine(case)
+        vb.begin(inputs)
+        err, taken = ("none", 0) if vb.is_done else vb.step_n(4 * MODEL_BUDGET + 64)
+        if err == "none" and not vb.is_done:
+            return {"tags": tags, "discarded": "undocumented behaviour and the machine exceeds the step budget", "nontrivial": False}
+        vb.close()
+
     final_m = mtrace0[-1]
     tags.append("outcome:" + final_m[1])
     tags += sorted(model.census - set(t for t in model.census if t.startswith("exec:read:")))
